@@ -307,8 +307,12 @@ def monitor(doc, desc, out, info, root):
     if out.startswith("rejected") and not out.endswith("@load") and not broken:
         # the validator let it through, no documented rule is violated, and a
         # consumer (environment / steps / parameters / Study) refused it
-        mon.append(("accepted-convertible", "validated specification refused by a consumer: %s after mutation '%s'"
-                    % (out, desc)))
+        # classify the input, so that a known finding matches its own class only
+        tokened = isinstance(doc, dict) and isinstance(doc.get("study"), list) and any(
+            isinstance(st_, dict) and isinstance(st_.get("name"), str) and "$(" in st_["name"] for st_ in doc["study"])
+        cause = "cause=variable-token-in-a-step-name " if tokened and out == "rejected:ValueError@study" else ""
+        mon.append(("accepted-convertible", "%svalidated specification refused by a consumer: %s after mutation '%s'"
+                    % (cause, out, desc)))
     # rules the validator itself checks: a document that only breaks such rules
     # must be refused by the validator (phase "load"), not later by a consumer
     if out.startswith("rejected") and not out.endswith("@load") and broken and \
@@ -375,7 +379,12 @@ def make_case(doc, desc, root):
     cls = out.split(":")[0]
     e = enc(doc)
     lines, impl = [], []
-    if e is not None:
+    # Model/Spec.lean takes step names as written: what `Study.add_step` does to a name that holds a
+    # `$(VAR)` token (node under the raw name, edges under the substituted one - known finding
+    # C13-variable-in-step-name) is outside the model; such documents are judged by the monitor only
+    tokened = isinstance(doc, dict) and isinstance(doc.get("study"), list) and any(
+        isinstance(st_, dict) and isinstance(st_.get("name"), str) and "$(" in st_["name"] for st_ in doc["study"])
+    if e is not None and not tokened:
         lines = ["spec.load %s" % e]
         if cls == "accepted":
             impl = ["accepted steps=%s" % ",".join(hx(str(n)) for n in info["steps"])]
@@ -459,6 +468,19 @@ def priority_monitor():
     return mon
 
 
+def _rename_with_variable(d):
+    """the first step is called `<name>-$(STAGE)`; whoever depends on it says so under that name"""
+    old = d["study"][0]["name"]
+    new = old + "-$(STAGE)"
+    d["env"] = {"variables": {"STAGE": "build"}}
+    d["study"][0]["name"] = new
+    for st in d["study"][1:]:
+        deps = st.get("run", {}).get("depends")
+        if isinstance(deps, list):
+            st["run"]["depends"] = [new if x == old else (new + x[len(old):] if isinstance(x, str) and x.startswith(old + "_*") else x)
+                                    for x in deps]
+
+
 CORPUS_MUTATIONS = [
     ("delete step name", lambda d: d["study"][0].pop("name")),
     ("retype run.cmd to []", lambda d: d["study"][0]["run"].__setitem__("cmd", [])),
@@ -510,6 +532,7 @@ CORPUS_MUTATIONS = [
     ("a step named '_source '", lambda d: d["study"][1].__setitem__("name", "_source ")),
     ("a dependency on 'a' where only 'a ' is defined", lambda d: (
         d["study"][0].__setitem__("name", "a "), d["study"][1]["run"].__setitem__("depends", ["a"]))),
+    ("a variable in a step name", lambda d: _rename_with_variable(d)),
     ("a date where a command belongs", lambda d: d["study"][0]["run"].__setitem__("cmd", __import__("datetime").date(2024, 1, 1))),
     ("a date as a parameter value", lambda d: d.__setitem__("global.parameters", {
         "DAY": {"values": [__import__("datetime").date(2024, 1, 1), __import__("datetime").date(2024, 1, 2)],
